@@ -934,6 +934,25 @@ def gen_cli(repo):
     L.append('def seedOnly : Bool := ' + ('true' if 'letseed=matchself.seed{None=>Pcg64Mcg::from_entropy().gen(),Some(x)=>x,};' in seedpath else 'false'))
     rngline = re.sub(r'\s+', '', fn_body(opt, 'optimise_state') or '')
     L.append('def rngFromSeed : Bool := ' + ('true' if 'letmutrng=Pcg64Mcg::seed_from_u64(self.seed);' in rngline else 'false'))
+    # ---- the total order on states by score (what `.max()` uses)
+    order_ok = []
+    for rel, ty in [('src/state/packed.rs', 'PackedState'), ('src/state/potential.rs', 'PotentialState')]:
+        src = read(repo, rel)
+        def body_of(trait, fn):
+            m = re.search(r'impl<S>\s+' + trait + r'\s+for\s+' + ty + r'<S>[^{]*\{', src)
+            if not m:
+                return None
+            blk = src[m.end():match_brace(src, m.end() - 1)]
+            return re.sub(r'\s+', '', fn_body(blk, fn) or '')
+        pc = body_of('PartialOrd', 'partial_cmp')
+        oc = body_of('Ord', 'cmp')
+        ok = (pc == 'match(self.score(),other.score()){(Some(s),Some(o))=>s.partial_cmp(&o),(_,_)=>None,}'
+              and oc in ('self.partial_cmp(other).unwrap()', 'self.partial_cmp(&other).unwrap()'))
+        order_ok.append((ty, ok))
+        if not ok:
+            notes.append('%s: the ordering of states is not `score.partial_cmp(score)` / `partial_cmp(..).unwrap()`' % ty)
+    L.append('/-- states are ordered by comparing their scores as floating-point numbers -/')
+    L.append('def stateOrderByScore : List (String × Bool) := [' + ', '.join('(%s, %s)' % (lean_str(n), 'true' if o else 'false') for n, o in order_ok) + ']')
     L.append('')
     L.append('def cliUnrecognised : List String := [' + ', '.join(lean_str(x) for x in notes) + ']')
     L.append('')
